@@ -361,6 +361,43 @@ def search_c10():
     return None
 
 
+def search_c17():
+    import rsatoolbox
+    from rsatoolbox.rdm.transform import sqrt_transform, positive_transform, geotopological_transform, minmax_transform
+    rs = np.random.RandomState(5)
+    for rep in range(300):
+        n_rdm, n_cond = rs.randint(1, 4), rs.randint(3, 7)
+        nvec = n_cond * (n_cond - 1) // 2
+        D = rs.randint(-8, 25, size=(n_rdm, nvec)) / 4.0
+        if rep % 4 == 0:
+            D = np.abs(D)
+        rdms = rsatoolbox.rdm.RDMs(D.copy())
+        inp = dict(dissimilarities=D.tolist())
+        for name, f, want in (('sqrt_transform', sqrt_transform, np.sqrt(np.maximum(D, 0))),
+                              ('positive_transform', positive_transform, np.maximum(D, 0))):
+            out = f(rdms).get_vectors()
+            if out.shape != want.shape or not np.allclose(out, want, atol=1e-12, equal_nan=True):
+                return _fail(name, inp, out.tolist(), want.tolist(), 'the transform is not the entry-wise function its name states')
+        rng = D.max(1, keepdims=True) - D.min(1, keepdims=True)
+        if np.all(rng > 0):
+            want = (D - D.min(1, keepdims=True)) / rng
+            out = minmax_transform(rdms).get_vectors()
+            if out.shape != want.shape or not np.allclose(out, want, atol=1e-12):
+                return _fail('minmax_transform', inp, out.tolist(), want.tolist(),
+                             'each RDM is not rescaled by its own minimum and maximum onto [0,1]')
+        low, up = [(0.1, 0.9), (0.25, 0.75), (0.0, 1.0), (0.3, 0.6)][rep % 4]
+        lo, hi = np.quantile(D, low), np.quantile(D, up)
+        if hi > lo:
+            want = np.where(D < lo, 0.0, np.where(D > hi, 1.0, (D - lo) / (hi - lo)))
+            out = geotopological_transform(rdms, low, up).get_vectors()
+            if out.shape != want.shape or not np.allclose(out, want, atol=1e-12):
+                return _fail('geotopological_transform', dict(inp, low=low, up=up), out.tolist(), want.tolist(),
+                             'entries are not 0 below the lower quantile, 1 above the upper one and linear in between')
+        if not np.array_equal(rdms.get_vectors(), D):
+            return _fail('transform', inp, rdms.get_vectors().tolist(), D.tolist(), 'a transform changed its input')
+    return None
+
+
 def search(pid):
     f = globals().get('search_' + pid.lower())
     r = f() if f else None
